@@ -26,6 +26,46 @@ def match_ops(rng, n):
     return ["match %s | %s" % (recipe(), recipe()) for _ in range(n)]
 
 
+def bind_ops(rng, n):
+    """signatures (required, defaulted, required-after-optional, rest, keyword parameters) and argument lists that mostly fit: the
+    real binding loop (through hooks that declare a configured method and call checkAndPropagateArgs) against Model/Bind.lean"""
+    TY = ["I", "S", "F", "Y", "N", "U", "B", "A", "H", "O:Foo", "I+S", "S+Y+N", "O:Foo+I"]
+    AR = ["I", "S", "F", "Y", "N", "B", "A( I )", "H( a= I )", "O:Foo", "O:Bar", "U( I S )", "U( F N )", "U", "K"]
+    FIT = {"I": "I", "S": "S", "F": "F", "Y": "Y", "N": "N", "U": "I", "B": "B", "A": "A( I )", "H": "H( a= I )", "O:Foo": "O:Foo", "I+S": "U( I S )", "S+Y+N": "Y", "O:Foo+I": "O:Foo"}
+    ops = []
+    for _ in range(n):
+        ps = []
+        for _ in range(rng.choice([0, 1, 1, 2, 3])):
+            ps.append("p:" + rng.choice(TY))
+        for _ in range(rng.choice([0, 0, 1, 2])):
+            ps.append("p:" + rng.choice(TY) + "?")
+        if rng.random() < 0.2:
+            ps.append("p:" + rng.choice(TY))
+        if rng.random() < 0.25:
+            ps.append("s:" + rng.choice(TY))
+        keys = rng.sample(["alpha", "beta", "gamma"], rng.choice([0, 0, 1, 2]))
+        ktypes = {}
+        for k in keys:
+            ktypes[k] = rng.choice(TY)
+            ps.append("k:%s:%s%s" % (k, ktypes[k], rng.choice(["", "?"])))
+        good = rng.random() < 0.7
+        args = []
+        npos = len([p for p in ps if p[0] == "p"])
+        count = max(0, npos + rng.choice([-1, 0, 0, 0, 1]) - (rng.randint(0, 2) if rng.random() < 0.3 else 0))
+        posps = [p for p in ps if p[0] in "ps"]
+        for i in range(count):
+            t = posps[min(i, len(posps) - 1)].split(":", 1)[1].rstrip("?") if posps else "I"
+            args.append(FIT[t] if good or rng.random() < 0.6 else rng.choice(AR))
+        order = list(keys)
+        rng.shuffle(order)
+        for k in order + (["zeta"] if rng.random() < 0.1 else []):
+            if rng.random() < 0.8:
+                a = "%s=%s" % (k, FIT[ktypes[k]] if k in ktypes and (good or rng.random() < 0.6) else rng.choice(AR))
+                args.insert(rng.randint(0, len(args)) if rng.random() < 0.1 else len(args), a)
+        ops.append("bind %s | %s | %s" % (" ".join(ps) or "-", " ; ".join(args) or "-", rng.choice("0001")))
+    return ops
+
+
 def run_calls(ctx, nconf, nprog, tag):
     """returns {"C07": [...], "C08": [...]} failure replays; known findings are printed through ctx"""
     rng = ctx.rng
